@@ -11,6 +11,7 @@ functions are a few statements long), giving a path-sensitive abstract interpret
 from __future__ import annotations
 
 import ast
+import re
 import operator
 from dataclasses import dataclass, field
 from fractions import Fraction
@@ -334,6 +335,13 @@ class Interp:
                 r = self.prog.resolve_import(base.name[7:], attr)
                 if isinstance(r, (Func, Class)):
                     return r
+            if attr in ("kind", "itemsize", "name") and base.name.startswith("ext:numpy."):
+                # the dtype of an array is modelled by its scalar type
+                m = re.fullmatch(r"ext:numpy\.(uint|int|float)(8|16|32|64)", base.name)
+                if m:
+                    return {"kind": {"uint": "u", "int": "i", "float": "f"}[m.group(1)], "itemsize": int(m.group(2)) // 8, "name": m.group(1) + m.group(2)}[attr]
+                if base.name == "ext:numpy.bool_":
+                    return {"kind": "b", "itemsize": 1, "name": "bool"}[attr]
             return Sym(f"{base.name}.{attr}")
         if isinstance(base, int) and not isinstance(base, bool) and attr in ("bit_length", "bit_count"):
             return _PyMethod(base, attr)
